@@ -48,8 +48,10 @@ Inductive stmt (C : Type) :=
 | SSetPtr (p x : N)                   (* p = &x *)
 | SStoreP (p : N) (e : expr C)        (* *p = e *)
 | SPrint (e : expr C)                 (* fmt.Println(e) *)
-| SExpr (e : expr C).                 (* expression statement; its value is what Eval returns *)
+| SExpr (e : expr C)                  (* expression statement; its value is what Eval returns *)
+| SUse (k : N).                       (* fmt.Println(<a call into imported package k>): needs the import to be visible *)
 Arguments SAssign {C}. Arguments SSetPtr {C}. Arguments SStoreP {C}. Arguments SPrint {C}. Arguments SExpr {C}.
+Arguments SUse {C}.
 
 (** func f(a int) int { body; return ret } *)
 Definition fdef (C : Type) := (list (stmt C) * expr C)%type.
@@ -58,7 +60,11 @@ Inductive item :=
 | IVar (x : N) (e : expr N)           (* var x = e *)
 | IPtr (p : N)                        (* var p *int *)
 | IFunc (f : N) (d : fdef N)          (* func f(a int) int {...};  f = main_name: func main() {...} *)
-| IStmt (s : stmt N).
+| IStmt (s : stmt N)
+| IImport (k : N).                    (* import "<package k>" *)
+
+(** what the call into package k prints (strings.Count("aXbXc", "X"), len(strconv.Itoa(12345)), ...) *)
+Definition impval (k : N) : Z := match k with 1 => 2%Z | 2 => 5%Z | 3 => 4%Z | 4 => 7%Z | _ => 0%Z end.
 
 Definition main_name : N := 0.
 
@@ -120,6 +126,7 @@ Section Eval.
                      (match tgt with Some x => wr m1 x v | None => m1 end, None)
     | SPrint e => let '(m1, v) := ev m a e in (pr m1 v, None)
     | SExpr e => let '(m1, v) := ev m a e in (m1, Some v)
+    | SUse k => (pr m (impval k), None)
     end.
 
   Fixpoint exl (m : mem) (a : Z) (r : option Z) (l : list (stmt C)) : mem * option Z :=
@@ -165,7 +172,7 @@ Fixpoint vnames_e {C} (e : expr C) : list N :=
 Definition fnames_s {C} (s : stmt C) : list C :=
   match s with
   | SAssign _ e | SStoreP _ e | SPrint e | SExpr e => fnames_e e
-  | SSetPtr _ _ => []
+  | SSetPtr _ _ | SUse _ => []
   end.
 
 Definition fnames_d {C} (d : fdef C) : list C := flat_map fnames_s (fst d) ++ fnames_e (snd d).
@@ -176,11 +183,25 @@ Definition fnames_i (i : item) : list N :=
   | IPtr _ => []
   | IFunc _ d => fnames_d d
   | IStmt s => fnames_s s
+  | IImport _ => []
   end.
+
+(** packages used (through [SUse]) and imported by a chunk *)
+Definition uses_s {C} (s : stmt C) : list N := match s with SUse k => [k] | _ => [] end.
+Definition uses_i (i : item) : list N :=
+  match i with
+  | IFunc _ d => flat_map uses_s (fst d)
+  | IStmt s => uses_s s
+  | _ => []
+  end.
+Definition imports_of (c : list item) : list N :=
+  flat_map (fun i => match i with IImport k => [k] | _ => [] end) c.
 
 Definition declared_f (i : item) : list N := match i with IFunc f _ => [f] | _ => [] end.
 
 Definition is_decl (i : item) : bool := match i with IStmt _ => false | _ => true end.
+
+Definition no_uses (c : list item) : bool := match flat_map uses_i c with [] => true | _ => false end.
 
 (* ------------------------------------------------------------------ *)
 (** * Y — the session as yaegi runs it *)
@@ -206,6 +227,7 @@ Section Resolve.
     | SStoreP p e => option_map (SStoreP p) (res_e e)
     | SPrint e => option_map SPrint (res_e e)
     | SExpr e => option_map SExpr (res_e e)
+    | SUse k => Some (SUse k)
     end.
   Fixpoint res_l (l : list (stmt N)) : option (list (stmt nat)) :=
     match l with
@@ -220,9 +242,11 @@ Record ystate := { fscope : list (N * nat);     (* package scope: function name 
                    vscope : list (N * nat);     (* package scope: variable name -> number of the chunk that declared it *)
                    code : list (fdef nat);      (* compiled function bodies; the id is the position *)
                    epoch : nat;                 (* number of chunks compiled so far *)
-                   ymem : mem }.
+                   ymem : mem;
+                   srcname : N;                 (* interp.name: sticky name of the last named source; 0 = "_.go" *)
+                   imports : list (N * N) }.    (* package scope keys "<pkg>/<basename of the source>": (source name, package) *)
 
-Definition y0 : ystate := {| fscope := []; vscope := []; code := []; epoch := O; ymem := mem0 |}.
+Definition y0 : ystate := {| fscope := []; vscope := []; code := []; epoch := O; ymem := mem0; srcname := 0; imports := [] |}.
 
 (** a compiled chunk (interp.Program) *)
 Record program := { p_stmts : list (stmt nat);          (* root statements (statement chunk) *)
@@ -277,13 +301,27 @@ Definition foreign_dep (vs : list (N * nat)) (ep : nat) (x : N) : bool :=
 Definition loop_flag (vs : list (N * nat)) (ep : nat) (inits : list (N * expr nat)) : bool :=
   existsb (fun '(_, e) => existsb (foreign_dep vs ep) (vnames_e e)) inits.
 
+(** an imported package is entered in the package scope under "<pkg>/<basename of the source being
+    compiled>" (interp/gta.go importSpec) and looked up with the base name of the source of the chunk
+    that uses it (interp/cfg.go identExpr): a use sees the imports made under the name in force *)
+Definition new_imports (s : ystate) (c : chunk) : list (N * N) :=
+  map (pair (srcname s)) (imports_of c) ++ imports s.
+
+Definition visible (imps : list (N * N)) (name k : N) : bool :=
+  existsb (fun nk => N.eqb (fst nk) name && N.eqb (snd nk) k) imps.
+
+Definition uses_ok (s : ystate) (c : chunk) : bool :=
+  forallb (visible (new_imports s c) (srcname s)) (flat_map uses_i c).
+
 Definition y_compile (s : ystate) (c : chunk) : ystate * option program * result :=
+  if negb (uses_ok s c) then (s, None, RUndef) else
   if forallb is_decl c then
     let fs := gta_f (length (code s)) (fscope s) (funcs c) in
     let vs := gta_v (epoch s) (vscope s) (vars c) in
     match res_funcs (alookup fs) (funcs c), res_inits (alookup fs) (inits c) with
     | Some ds, Some inits =>
-        ({| fscope := fs; vscope := vs; code := code s ++ ds; epoch := S (epoch s); ymem := ymem s |},
+        ({| fscope := fs; vscope := vs; code := code s ++ ds; epoch := S (epoch s); ymem := ymem s;
+            srcname := srcname s; imports := new_imports s c |},
          Some {| p_stmts := []; p_inits := inits; p_loop := loop_flag vs (epoch s) inits; p_main := alookup fs main_name |},
          ROk None)
     | _, _ => (s, None, RUndef)
@@ -291,7 +329,8 @@ Definition y_compile (s : ystate) (c : chunk) : ystate * option program * result
   else if forallb (fun i => negb (is_decl i)) c then
     match res_l (alookup (fscope s)) (stmts c) with
     | Some ss =>
-        ({| fscope := fscope s; vscope := vscope s; code := code s; epoch := S (epoch s); ymem := ymem s |},
+        ({| fscope := fscope s; vscope := vscope s; code := code s; epoch := S (epoch s); ymem := ymem s;
+            srcname := srcname s; imports := imports s |},
          Some {| p_stmts := ss; p_inits := []; p_loop := false; p_main := alookup (fscope s) main_name |},
          ROk None)
     | None => (s, None, RUndef)
@@ -299,7 +338,8 @@ Definition y_compile (s : ystate) (c : chunk) : ystate * option program * result
   else (s, None, RParse).
 
 Definition with_mem (s : ystate) (m : mem) : ystate :=
-  {| fscope := fscope s; vscope := vscope s; code := code s; epoch := epoch s; ymem := m |}.
+  {| fscope := fscope s; vscope := vscope s; code := code s; epoch := epoch s; ymem := m;
+     srcname := srcname s; imports := imports s |}.
 
 Fixpoint run_inits {C} (call : mem -> C -> Z -> mem * Z) (m : mem) (l : list (N * expr C)) : mem :=
   match l with
@@ -343,6 +383,45 @@ Fixpoint y_run (fuel : nat) (s : ystate) (cs : list chunk) : ystate * list resul
   match cs with
   | [] => (s, [])
   | c :: r => let '(s1, r1) := y_eval fuel s c in let '(s2, rs) := y_run fuel s1 r in (s2, r1 :: rs)
+  end.
+
+(** A session step: an unnamed source (Eval, Compile+Execute, CompileAST with the name in force), a
+    named file (EvalPath / CompilePath on a file: [compileSrc] makes its name the name in force before
+    anything else), or a directory (EvalPath on a directory goes through [importSrc]: the package gets
+    a scope of its own, keyed by the path, with its own variables; only the output is shared). *)
+Inductive step :=
+| SEval (c : chunk)
+| SFile (n : N) (c : chunk)
+| SDir (c : chunk).
+
+Definition set_name (s : ystate) (n : N) : ystate :=
+  {| fscope := fscope s; vscope := vscope s; code := code s; epoch := epoch s; ymem := ymem s;
+     srcname := n; imports := imports s |}.
+
+Definition y_step (fuel : nat) (s : ystate) (st : step) : ystate * result :=
+  match st with
+  | SEval c => y_eval fuel s c
+  | SFile n c => y_eval fuel (set_name s n) c
+  | SDir c =>
+      let '(s', r) := y_eval fuel (with_mem y0 {| store := []; ptrs := []; out := out (ymem s) |}) c in
+      (with_mem s {| store := store (ymem s); ptrs := ptrs (ymem s); out := out (ymem s') |}, r)
+  end.
+
+Fixpoint y_steps (fuel : nat) (s : ystate) (l : list step) : ystate * list result :=
+  match l with
+  | [] => (s, [])
+  | st :: r => let '(s1, r1) := y_step fuel s st in let '(s2, rs) := y_steps fuel s1 r in (s2, r1 :: rs)
+  end.
+
+Definition step_chunk (st : step) : chunk := match st with SEval c | SFile _ c | SDir c => c end.
+
+Definition nodir (l : list step) : bool := forallb (fun st => match st with SDir _ => false | _ => true end) l.
+
+(** every use of a package comes after an import of it (interactive style, for imports) *)
+Fixpoint imp_ordered (known : list N) (c : chunk) : bool :=
+  match c with
+  | [] => true
+  | i :: r => forallb (fun k => existsb (N.eqb k) known) (uses_i i) && imp_ordered (imports_of [i] ++ known) r
   end.
 
 (** the other entry points: the same two functions, composed differently *)
@@ -390,7 +469,7 @@ Definition g_item (fuel : nat) (g : gstate) (i : item) : gstate * option Z :=
   match i with
   | IVar x e => let '(m1, v) := ev (call_n (alookup (gfuns g)) fuel) (gmem g) 0%Z e in
                 ({| gfuns := gfuns g; gmem := wr m1 x v |}, None)
-  | IPtr _ => (g, None)
+  | IPtr _ | IImport _ => (g, None)      (* an import stays visible for good *)
   | IFunc f d => ({| gfuns := (f, d) :: gfuns g; gmem := gmem g |}, None)
   | IStmt s => let '(m1, r1) := ex (call_n (alookup (gfuns g)) fuel) (gmem g) 0%Z s in
                ({| gfuns := gfuns g; gmem := m1 |}, r1)
@@ -474,7 +553,8 @@ Definition homogeneous (c : chunk) : bool := forallb is_decl c || forallb (fun i
 Definition no_main (c : chunk) : bool := negb (existsb (N.eqb main_name) (flat_map declared_f c ++ flat_map fnames_i c)).
 
 Definition prog_ok (p : prog) : bool :=
-  forallb is_decl (decls p) && ordered (decls p ++ map IStmt (body p)) && no_main (decls p ++ map IStmt (body p)).
+  forallb is_decl (decls p) && ordered (decls p ++ map IStmt (body p)) && no_main (decls p ++ map IStmt (body p))
+  && no_uses (decls p ++ map IStmt (body p)).    (* the import dimension is treated separately: sessions of steps *)
 
 (* ------------------------------------------------------------------ *)
 (** * Observation *)
@@ -538,3 +618,15 @@ Definition redef_cs : list chunk :=
 (** interactive style needs declaration before use: f2 calls f1 | f1 *)
 Definition forward_cs : list chunk :=
   [[IFunc 2 ([], ECall 1 EArg)]; [IFunc 1 ([], EArg)]].
+
+(** import scope: import "strings" | EvalPath(file 1: var v1 = 1) | a use of strings *)
+Definition impscope_steps : list step :=
+  [SEval [IImport 1]; SFile 1 [IVar 1 (EConst 1%Z)]; SEval [IStmt (SUse 1)]].
+
+(** the same through one source name: visible *)
+Definition impscope_ok_steps : list step :=
+  [SFile 1 [IImport 1; IVar 1 (EConst 1%Z)]; SEval [IStmt (SUse 1)]; SEval [IImport 2]; SEval [IStmt (SUse 2)]].
+
+(** directory, then a chunk that calls one of its functions *)
+Definition dirscope_steps : list step :=
+  [SDir [IFunc 1 ([], EConst 7%Z)]; SEval [IStmt (SPrint (ECall 1 (EConst 0%Z)))]].
